@@ -244,6 +244,26 @@ func LostStatus(r *rand.Rand) Scn {
 	// the teardown starts at a random point of the roll-out
 	cut := 1 + r.Intn(len(steps))
 	steps = steps[:cut]
+	if r.Intn(3) == 0 {
+		// a third party deletes a phase object; the ObjectSet re-creates it (new uid) in a pass whose status
+		// update may be lost too: status.remotePhases then still names the OLD uid when the teardown starts
+		var del []string
+		for _, ph := range os1.Phases {
+			if ph.Class != "" {
+				del = append(del, "os1-"+ph.Name)
+			}
+		}
+		if len(del) > 0 {
+			pn := del[r.Intn(len(del))]
+			steps = append(steps, Step{Op: "delPhase", Set: pn, Value: "force"})
+			for k := r.Intn(3); k > 0; k-- {
+				steps = append(steps, rec())
+				if r.Intn(2) == 0 {
+					steps = append(steps, Step{Op: "phase", Set: pn})
+				}
+			}
+		}
+	}
 	if r.Intn(2) == 0 {
 		steps = append(steps, Step{Op: "lifecycle", Set: "os1", Value: "Archived"})
 	} else {
@@ -282,6 +302,13 @@ func PauseRace(r *rand.Rand) Scn {
 		os1.Phases = append(os1.Phases, PhaseSpec{Name: fmt.Sprintf("p%d", i+1), Class: cls,
 			Objects: []verifphase.PObj{{Kind: "NsThing", NS: objNS, Name: names[i], CP: "Prevent", Payload: "x", DryRun: "accept"}}})
 	}
+	// the first phase breaks while the ObjectSet is paused: its kind is re-registered cluster-scoped, so
+	// every pass of the (namespaced) ObjectSet from then on ends in a preflight violation in phase 1 —
+	// the delegated phases behind it must be handed the pause all the same
+	breakEarly := !s.Cluster && nph > 1 && os1.Phases[0].Class == "" && r.Intn(3) == 0
+	if breakEarly {
+		os1.Phases[0].Objects[0].Kind = "ClThing"
+	}
 	s.Sets = []SetSpec{os1}
 	phasePasses := func(p float64) (out []Step) {
 		for _, ph := range os1.Phases {
@@ -292,16 +319,26 @@ func PauseRace(r *rand.Rand) Scn {
 		return
 	}
 	var steps []Step
+	if breakEarly {
+		steps = append(steps, Step{Op: "rescope", Set: "ClThing", Value: "namespaced"})
+	}
 	for i := range os1.Phases {
 		steps = append(steps, Step{Op: "reconcile", Set: "os1"})
 		steps = append(steps, phasePasses(0.5)...)
-		if r.Intn(3) != 0 {
-			steps = append(steps, Step{Op: "env", Env: []verifphase.EnvOp{{Op: "setReady", Kind: "NsThing", NS: "ns1", Name: names[i], Ready: true, ObsGen: -1}}})
+		if r.Intn(3) != 0 || breakEarly {
+			steps = append(steps, Step{Op: "env", Env: []verifphase.EnvOp{{Op: "setReady", Kind: os1.Phases[i].Objects[0].Kind, NS: "ns1", Name: names[i], Ready: true, ObsGen: -1}}})
 			steps = append(steps, phasePasses(0.5)...)
 		}
 	}
 	cut := 1 + r.Intn(len(steps))
-	steps = append(steps[:cut:cut], Step{Op: "lifecycle", Set: "os1", Value: "Paused"})
+	if breakEarly {
+		cut = len(steps) - r.Intn(2)
+	}
+	steps = steps[:cut:cut]
+	if breakEarly {
+		steps = append(steps, Step{Op: "rescope", Set: "ClThing", Value: "cluster"})
+	}
+	steps = append(steps, Step{Op: "lifecycle", Set: "os1", Value: "Paused"})
 	for k := 0; k < 2; k++ {
 		steps = append(steps, Step{Op: "reconcile", Set: "os1"})
 		steps = append(steps, phasePasses(1)...)
